@@ -161,7 +161,7 @@ class Check(CheckBase):
                           'settings': gen.gen_settings(rr, encrypted=True, chunker=(8, 64))})
         for i in range(4 if quick else 96):
             cases.append({'kind': 'proc', 'seed': i, 'which': i})
-        for i in range(4 if quick else 60):
+        for i in range(8 if quick else 240):
             cases.insert(i, {'kind': 'cli', 'seed': random.Random(f'C17/{self.seed}/cli/{i}').randrange(1 << 30), 'timeout': 900})
         return cases
 
